@@ -26,7 +26,8 @@ RetryRun(len, outcomes, retries) == RetryFrom(len, outcomes, retries, 1, 0)
 \* e: [len, outcomes, retries, obs: [offers, transported (bytes equal the message prefix?), sent, n, err, later_ok]]
 RetryReasons(e) ==
   LET x == RetryRun(e.len, e.outcomes, e.retries) IN
-     (IF e.obs.offers # x.offers THEN <<IF Len(e.obs.offers) > Len(x.offers) THEN "extra-write" ELSE IF Len(e.obs.offers) < Len(x.offers) THEN "no-retry" ELSE "wrong-slice-resent">> ELSE <<>>)
+     (IF e.obs.err = "panic" THEN <<"panic">> ELSE <<>>)
+  \o (IF e.obs.offers # x.offers THEN <<IF Len(e.obs.offers) > Len(x.offers) THEN "extra-write" ELSE IF Len(e.obs.offers) < Len(x.offers) THEN "no-retry" ELSE "wrong-slice-resent">> ELSE <<>>)
   \o (IF ~e.obs.prefix_ok THEN <<"bytes-not-a-prefix">> ELSE <<>>)
   \o (IF e.obs.sent # x.sent THEN <<"bytes-sent">> ELSE <<>>)
   \o (IF (e.obs.err = "none") # (x.err = "none") THEN <<"result">> ELSE <<>>)
